@@ -810,6 +810,10 @@ def run(ck):
         pins = [g.small_ctx() for _ in range(3)]
         if main.ast.ctx is not None:
             pins[0] = None      # the equivalent pin: the declared context itself
+            spec = prog.funcs[-1].ctx
+            kw = dict(spec.kw)
+            kw['rm'] = 'RTZ' if kw.get('rm', 'RNE') != 'RTZ' else 'RAZ'
+            pins[1] = CtxSpec(spec.kind, **kw)      # same format, another rounding mode: `is_equiv`, accepted
         for pi, pin in enumerate(pins):
             pobj = main.ast.ctx if pin is None else pin.obj()
             pcoq = lang.ctx_to_coq(pobj)
